@@ -13,9 +13,9 @@ import (
 
 // nullGroupKeyMarker is the group-key segment for a missing/nil group field
 // (e.g. a LEFT JOIN row with no match). Rows sharing it collapse into one NULL
-// group; GetResults maps it back to nil. The \x00 byte avoids collisions with
-// realistic field values.
-const nullGroupKeyMarker = "\x00NULL"
+// group; GetResults maps it back to nil. cast.KeyPart escapes backslashes, so no
+// field value renders to this marker.
+const nullGroupKeyMarker = cast.NullKeyPart
 
 // groupKeySep 分隔分组键各字段。\x1f（单元分隔符）在真实数据中极少出现，避免字段值含
 // 分隔符导致的键碰撞（曾用 "|"：含 "|" 的值会被还原阶段截断、多字段还会错位）。
@@ -218,11 +218,7 @@ func (ga *GroupAggregator) Add(data any) error {
 			continue
 		}
 
-		if str, ok := fieldVal.(string); ok {
-			key += str + groupKeySep
-		} else {
-			key += fmt.Sprintf("%v", fieldVal) + groupKeySep
-		}
+		key += cast.KeyPart(fieldVal, groupKeySep[0]) + groupKeySep
 		keyVals = append(keyVals, fieldVal)
 	}
 
